@@ -268,6 +268,12 @@ def check_node(p, node, col, feats):
             shapes["other-structured"] = Src(**wire)
         except Exception:
             pass
+        if not spec_n["flavour"].startswith("typeddict"):
+            # an instance of the class itself whose members still hold their wire values (constructors do not validate)
+            try:
+                shapes["same-class-instance"] = T_n(**wire)
+            except Exception:
+                pass
         tl.clear_all()
         base = outcome(tl.unmarshal, T_n, wire)
         for name, x in shapes.items():
